@@ -65,6 +65,10 @@ pub struct Obs {
     pub verdicts: u64,
     /// ids of known findings this case ran into (inside the signature)
     pub known_hits: Vec<&'static str>,
+    /// a case that enumerates sub-cases itself (e.g. all partitions of one stream) reports
+    /// how many further executions it ran and how many of them were distinct and non-trivial
+    pub sub_evaluations: u64,
+    pub sub_nontrivial_distinct: u64,
 }
 
 impl Obs {
@@ -117,6 +121,8 @@ pub struct StreamReport {
     pub evaluations: u64,
     pub excluded: u64,
     pub nontrivial: u64,
+    /// distinct non-trivial sub-cases counted inside cases (added to the distinct total)
+    pub sub_nontrivial: u64,
     pub verdicts: u64,
     pub distinct: HashSet<u64>,
     pub classes: BTreeMap<&'static str, u64>,
@@ -238,7 +244,8 @@ impl Acc {
             r.excluded += 1;
             return;
         }
-        r.evaluations += 1;
+        r.evaluations += 1 + obs.sub_evaluations;
+        r.sub_nontrivial += obs.sub_nontrivial_distinct;
         r.verdicts += obs.verdicts;
         for k in &obs.known_hits {
             *r.known_hits.entry(k).or_insert(0) += 1;
@@ -271,6 +278,7 @@ fn merge(into: &mut StreamReport, from: StreamReport) {
     into.evaluations += from.evaluations;
     into.excluded += from.excluded;
     into.nontrivial += from.nontrivial;
+    into.sub_nontrivial += from.sub_nontrivial;
     into.verdicts += from.verdicts;
     into.distinct.extend(from.distinct);
     for (k, v) in from.classes {
@@ -736,8 +744,8 @@ pub fn run_property(p: &Property, tier: Tier, seed: u64) -> i32 {
 
     // 5. evidence
     let evaluations: u64 = reports.iter().map(|r| r.evaluations).sum();
-    let distinct: u64 = reports.iter().map(|r| r.distinct.len() as u64).sum();
-    let nontrivial: u64 = reports.iter().map(|r| r.nontrivial).sum();
+    let distinct: u64 = reports.iter().map(|r| r.distinct.len() as u64 + r.sub_nontrivial).sum();
+    let nontrivial: u64 = reports.iter().map(|r| r.nontrivial + r.sub_nontrivial).sum();
     let mut samples: Vec<Value> = vec![];
     for r in &reports {
         for s in r.samples.iter().take(3) {
@@ -754,7 +762,7 @@ pub fn run_property(p: &Property, tier: Tier, seed: u64) -> i32 {
                 "evaluations": r.evaluations,
                 "excluded_by_construction": r.excluded,
                 "nontrivial": r.nontrivial,
-                "distinct_nontrivial": r.distinct.len(),
+                "distinct_nontrivial": r.distinct.len() as u64 + r.sub_nontrivial,
                 "oracle_verdicts": r.verdicts,
                 "classes": r.classes,
                 "known_finding_hits": r.known_hits,
@@ -800,8 +808,8 @@ pub fn run_property(p: &Property, tier: Tier, seed: u64) -> i32 {
             "  stream {:<22} evaluations={:<9} nontrivial={:<9} distinct={:<9} excluded={:<7} verdicts={:<10} {:.2}s",
             r.name,
             r.evaluations,
-            r.nontrivial,
-            r.distinct.len(),
+            r.nontrivial + r.sub_nontrivial,
+            r.distinct.len() as u64 + r.sub_nontrivial,
             r.excluded,
             r.verdicts,
             r.wall_s
